@@ -194,6 +194,8 @@ def main(argv=None):
         d["obligation_instances"] += r["obligations"]
         d["max_decision_depth"] = max(d["max_decision_depth"], r["max_depth"])
         errors += r["errors"]
+        for reason in r.get("inconclusive_reasons", [])[:3]:
+            print("INCONCLUSIVE: property=%s harness=%s %s" % (pid, r["harness"], reason))
         violations += r["violations"]
         known_hits += r["known_hits"]
         if len(samples) < 6 and r["samples"]:
